@@ -80,6 +80,33 @@ ssize_t send(int fd, const void *buf, size_t len, int flags) {
   return syscall(SYS_sendto, fd, buf, len, flags, NULL, 0);
 }
 
+/* the host's wall clock is stepped back by PAMDRV_CLOCK_STEP seconds while the module runs (NTP step, VM resume, `date -s`): from the
+ * second reading on, every wall-clock reading the module makes is that much earlier.  Monotonic clocks are not touched; the harness
+ * measures real elapsed time from outside. */
+#include <time.h>
+static long wall_step(void) {
+  static long step = -1; static int calls;
+  if (step < 0) { const char *e = getenv("PAMDRV_CLOCK_STEP"); step = e ? atol(e) : 0; }
+  if (step == 0) return 0;
+  return ++calls > 1 ? step : 0;
+}
+int gettimeofday(struct timeval *tv, void *tz) {
+  int r = (int)syscall(SYS_gettimeofday, tv, tz);
+  if (r == 0 && tv) tv->tv_sec -= wall_step();
+  return r;
+}
+time_t time(time_t *t) {
+  struct timeval tv; syscall(SYS_gettimeofday, &tv, NULL);
+  time_t v = tv.tv_sec - wall_step();
+  if (t) *t = v;
+  return v;
+}
+int clock_gettime(clockid_t id, struct timespec *ts) {
+  int r = (int)syscall(SYS_clock_gettime, id, ts);
+  if (r == 0 && ts && (id == CLOCK_REALTIME || id == CLOCK_REALTIME_COARSE)) ts->tv_sec -= wall_step();
+  return r;
+}
+
 /* interposes libc's select() for the module linked into this executable */
 int select(int nfds, fd_set *r, fd_set *w, fd_set *e, struct timeval *tv) {
   if (gate_out >= 0 && !gate_done) {
